@@ -242,6 +242,8 @@ def a_cases(tier):
                 cs.append(F.viaP2(c1, c2, c2, end=e))
                 cs.append(F.viaPdup(c1, c2, c2, end=e, order=("B", "P", "A")))
                 cs.append(F.viaPdup(c1, c2, [], end=e, order=("B", "P", "A")))
+                cs.append(F.viaP2(c1, c2, [], end=e, order=("B", "P", "A")))
+                cs.append(F.viaP2(c1, c2, [], end=e, order=("A", "P", "B")))
             cs.append(F.viaPP(c1, c2, [], end=e))
             cs.append(F.viaPP(c1, [], c2, end=e, order=("B", "Q", "P", "A")))
         cs.append(F.diamondP(end=e, ch=c1))
